@@ -6,7 +6,7 @@
    follows). *)
 From Coq Require Import List String Ascii ZArith Bool.
 From AC Require Import Base.Strs Base.Json Gql.Coerce Model.Args Model.Convert Model.Scalars Proofs.ScalarsP.
-From AC Require Py.Ann Py.Pydantic Py.ParseLog Proofs.ParseLogP Model.Results Proofs.ResultsRunP Proofs.ResultsObjP Gql.Schema Gql.Exec.
+From AC Require Py.Ann Py.Pydantic Py.ParseLog Proofs.ParseLogP Proofs.ParseLogObjP Model.Results Proofs.ResultsRunP Proofs.ResultsObjP Gql.Schema Gql.Exec.
 From Coq Require Import Permutation.
 Import ListNotations.
 Local Open Scope string_scope.
@@ -115,27 +115,31 @@ Theorem C07_parse_never_null : forall n cs enums a j,
 Proof. exact ParseLogP.parse_never_null. Qed.
 Print Assumptions C07_parse_never_null.
 
-(* composed with C01's theorem for the classes Model/Results.v generates (sub-language op_ok): a conformant response
-   is accepted, and then parse runs on exactly its occurrences, never on null.  The uniqueness guard is evaluated by
-   the check on every driven response (it holds for all of them); proving it from op_ok (cov = true) is left open. *)
-Theorem C07_parse_once_op : forall C S frs fuel kind name sels root own pub' cls g cov fc j n,
+(* composed with C01's theorem for the classes Model/Results.v generates (sub-language op_ok with distinct Python
+   field names): a conformant response without duplicate object keys (jwf: what json parsing yields) is accepted, and
+   then parse runs on exactly its occurrences, never on null.  No evaluated guard: hereditary uniqueness is derived
+   from op_ok (Proofs/ParseLogObjP.v op_uniq). *)
+Theorem C07_uniq_op : forall C S frs fuel kind name sels root own pub' cls g fc j n,
   Results.root_type_name S kind = Results.Ok root ->
   Results.op_parse fuel C S frs kind name [] sels = Results.Ok (own, pub', false) ->
   Results.all_classes fuel C S frs (Results.DOp kind name [] sels) = Results.Ok cls ->
-  ResultsObjP.op_ok g cov C S frs root sels = true -> ResultsRunP.no_basemodel own = true ->
-  Exec.conf_op fc S frs root sels j = true -> n >= fuel + 2 ->
-  ParseLog.uniq n cls (Ann.AClass (Results.pascal_s name)) j = true ->
+  ResultsObjP.op_ok g true C S frs root sels = true -> ResultsRunP.no_basemodel own = true ->
+  Exec.conf_op fc S frs root sels j = true -> ResultsObjP.jwf j = true -> n >= fuel + 2 ->
+  ParseLog.uniq n cls (Ann.AClass (Results.pascal_s name)) j = true.
+Proof. exact ParseLogObjP.op_uniq. Qed.
+Print Assumptions C07_uniq_op.
+
+Theorem C07_parse_once_op : forall C S frs fuel kind name sels root own pub' cls g fc j n,
+  Results.root_type_name S kind = Results.Ok root ->
+  Results.op_parse fuel C S frs kind name [] sels = Results.Ok (own, pub', false) ->
+  Results.all_classes fuel C S frs (Results.DOp kind name [] sels) = Results.Ok cls ->
+  ResultsObjP.op_ok g true C S frs root sels = true -> ResultsRunP.no_basemodel own = true ->
+  Exec.conf_op fc S frs root sels j = true -> ResultsObjP.jwf j = true -> n >= fuel + 2 ->
   Pydantic.accepts n cls (Results.schema_enums S) (Ann.AClass (Results.pascal_s name)) j = true /\
   Permutation (ParseLog.plog n cls (Ann.AClass (Results.pascal_s name)) j)
               (ParseLog.pocc n cls (Ann.AClass (Results.pascal_s name)) j) /\
   Forall (fun e => snd e <> JNull) (ParseLog.plog n cls (Ann.AClass (Results.pascal_s name)) j).
-Proof.
-  intros C S frs fuel kind name sels root own pub' cls g cov fc j n Hr Hop Hall Hok Hnb Hconf Hn Hu.
-  assert (Ha := ResultsObjP.op_accepts C S frs fuel kind name sels root own pub' cls g cov fc j n
-                  Hr Hop Hall Hok Hnb Hconf Hn).
-  split; [exact Ha|]. split; [apply ParseLogP.parse_once_response; exact Hu|].
-  eapply ParseLogP.parse_never_null; exact Ha.
-Qed.
+Proof. exact ParseLogObjP.parse_once_op. Qed.
 Print Assumptions C07_parse_once_op.
 
 (* ---- non-vacuity ---- *)
